@@ -2,6 +2,7 @@ import Ruint.Model.Div
 import Ruint.Lemmas.Div.Dispatch
 import Ruint.Lemmas.Div.NArr
 import Ruint.Lemmas.Div.GenTie
+import Ruint.Lemmas.Div.GenLoops
 import Ruint.Lemmas.Div.LimbBridge
 /-!
 # C14 — limb-slice division kernels meet their documented contracts
@@ -226,5 +227,21 @@ example : divNxmNormalized [1, 2, 3] [0, 2 ^ 63] = some [1, 2, 6] := by decide +
 example : reciprocal (2 ^ 63) = 2 ^ 64 - 1 := by decide +kernel
 example : reciprocal2 (2 ^ 128 - 1) = 0 := by decide +kernel
 example : divNx1 [5, 7] 3 = ([0x5555555555555557, 2], 0) := by decide +kernel
+
+/-! ## Whole-function tie of the normalised `n×1` / `n×2` loops (G)
+
+`Ruint.Gen.div_nx1_normalized` / `div_nx2_normalized` are regenerated from `src/algorithms/div/small.rs` on every run
+(the reversed `iter_mut()` loop, `u128::join`, the calls of the generated `reciprocal*` / `div_2x1` / `div_3x2`) and
+proved equal to the models on the functions' documented domain; the driver executes them. -/
+
+theorem gen_div_nx1_normalized_eq (u : List ℕ) (d : ℕ) (hu : AllLt u) (h1 : 2 ^ 63 ≤ d) (h2 : d < 2 ^ 64)
+    (h64 : u.length < 2 ^ 64) (f : ℕ) (hf : u.length < f) :
+    Ruint.Gen.div_nx1_normalized f u d = divNx1Normalized u d :=
+  Ruint.Div.GenLoops.div_nx1_normalized_eq u d hu h1 h2 h64 f hf
+
+theorem gen_div_nx2_normalized_eq (u : List ℕ) (d : ℕ) (hu : AllLt u) (h1 : 2 ^ 127 ≤ d) (h2 : d < 2 ^ 128)
+    (h64 : u.length < 2 ^ 64) (f : ℕ) (hf : u.length < f) :
+    Ruint.Gen.div_nx2_normalized f u d = divNx2Normalized u d :=
+  Ruint.Div.GenLoops.div_nx2_normalized_eq u d hu h1 h2 h64 f hf
 
 end Ruint.C14
